@@ -8,9 +8,11 @@ CONSTANTS Scale        \* 1: quick bounds, 2: thorough bounds
 VARIABLE d
 
 \* sequences as written (ASCII): 1 ACGTACGTTGCA  2 AANNTTGGCC  3 ACG{3}TTAC  4 acgtn{2}acgt  5 ACGUIIACGT
+\* 6 ACGT{9}AC (longer when expanded than as written)
 SeqTexts == << <<65,67,71,84,65,67,71,84,84,71,67,65>>, <<65,65,78,78,84,84,71,71,67,67>>,
                <<65,67,71,123,51,125,84,84,65,67>>, <<97,99,103,116,110,123,50,125,97,99,103,116>>,
-               <<65,67,71,85,73,73,65,67,71,84>> >>           \* 5 ACGUIIACGT
+               <<65,67,71,85,73,73,65,67,71,84>>,
+               <<65,67,71,84,123,57,125,65,67>> >>           \* 5 ACGUIIACGT
 
 P0 == [seq |-> 1, restr |-> "none", rightmost |-> FALSE, anywhere |-> FALSE, named |-> FALSE, ekey |-> "none",
        eval |-> <<1, 5>>, okey |-> "none", oval |-> 4, ind |-> "none", req |-> "none"]
@@ -23,12 +25,12 @@ D0 == [kind |-> "single", opt |-> "a", p1 |-> P0, p2 |-> P0, fkind |-> "file:", 
 
 Placement ==
   {[D0 EXCEPT !.opt = o, !.p1 = [P0 EXCEPT !.seq = s, !.restr = r, !.rightmost = rm, !.anywhere = aw, !.named = nm]] :
-     o \in {"a", "g", "b"}, s \in 1..5, r \in {"none", "anchor", "ni"}, rm \in BOOLEAN, aw \in BOOLEAN, nm \in BOOLEAN}
+     o \in {"a", "g", "b"}, s \in 1..6, r \in {"none", "anchor", "ni"}, rm \in BOOLEAN, aw \in BOOLEAN, nm \in BOOLEAN}
 Params ==
   {[D0 EXCEPT !.opt = o, !.glob = g,
               !.p1 = [P0 EXCEPT !.seq = s, !.restr = r, !.ekey = ek, !.eval = ev, !.okey = ok, !.oval = ov, !.ind = i, !.req = rq]] :
-     o \in {"a", "g"}, g \in Globs, s \in {1, 2, 4, 5}, r \in {"none", "anchor"}, ek \in EKeys \cup {"none"}, ev \in EVals,
-     ok \in {"none", "o", "min_overlap"}, ov \in {4, 30}, i \in {"none", "indels", "noindels"},
+     o \in {"a", "g"}, g \in Globs, s \in {1, 2, 4, 5, 6}, r \in {"none", "anchor"}, ek \in EKeys \cup {"none"}, ev \in EVals,
+     ok \in {"none", "o", "min_overlap"}, ov \in {4, 12, 30}, i \in {"none", "indels", "noindels"},
      rq \in (IF Scale > 1 THEN {"none", "required"} ELSE {"none"})}
 Linked ==
   {[D0 EXCEPT !.kind = "linked", !.opt = o, !.glob = g,
@@ -41,16 +43,16 @@ Files ==
   {[D0 EXCEPT !.kind = "file", !.opt = o, !.fkind = fk, !.glob = g,
               !.fpar = [P0 EXCEPT !.ekey = fe, !.eval = <<3, 10>>, !.okey = fo, !.oval = 5, !.ind = fi],
               !.p1 = [P0 EXCEPT !.seq = 1, !.restr = r1, !.ekey = e1, !.eval = <<1, 5>>],
-              !.p2 = [P0 EXCEPT !.seq = 2, !.okey = o2, !.oval = 4, !.ind = i2]] :
+              !.p2 = [P0 EXCEPT !.seq = 2, !.restr = r2, !.okey = o2, !.oval = 4, !.ind = i2]] :
      o \in {"a", "g", "b"}, fk \in {"file:", "^file:", "file$:"}, g \in {G0, [G0 EXCEPT !.e = <<2, 1>>, !.noindels = TRUE]},
      fe \in {"none", "e", "max_errors"}, fo \in {"none", "o"}, fi \in {"none", "noindels", "indels"},
-     r1 \in {"none", "anchor"}, e1 \in {"none", "max_error_rate"}, o2 \in {"none", "min_overlap"}, i2 \in {"none", "indels"}}
+     r1 \in {"none", "anchor", "ni"}, r2 \in {"none", "ni"}, e1 \in {"none", "max_error_rate"}, o2 \in {"none", "min_overlap"}, i2 \in {"none", "indels"}}
 
 \* only documented combinations are generated: `anywhere` with regular -a / -g; the anchor of a record in a
 \* file is written in the record only with plain "file:"
 Documented(x) ==
   /\ (x.p1.anywhere => x.kind = "single")
-  /\ (x.kind = "file" /\ x.fkind # "file:" => x.p1.restr = "none")
+  /\ (x.kind = "file" /\ x.fkind # "file:" => x.p1.restr = "none" /\ x.p2.restr = "none")
 Derivations == {x \in Placement \cup Params \cup Linked \cup Files : Documented(x)}
 
 ASSUME ndJsonSerialize(IOEnv.OUT_FILE, SetToSeq(Derivations))
